@@ -16,6 +16,7 @@ import re
 import shutil
 import subprocess
 import tempfile
+import threading
 from concurrent.futures import ThreadPoolExecutor
 
 REPO = os.environ.get("VERIF_REPO", "/repo")
@@ -37,9 +38,16 @@ class Broken(Exception):
 
 
 _scratch = None
+_scratch_lock = __import__("threading").RLock()
 
 
 def scratch():
+    global _scratch
+    with _scratch_lock:
+        return _scratch_locked()
+
+
+def _scratch_locked():
     global _scratch
     if _scratch is None:
         base = os.environ.get("VERIF_SCRATCH_BASE") or tempfile.gettempdir()
@@ -82,8 +90,16 @@ def tool_versions():
     return out
 
 
+_gen_lock = threading.Lock()
+
+
 def gen_dir():
     """Directory containing the generated smooth/version.hpp (configure_file emulation)."""
+    with _gen_lock:
+        return _gen_dir_locked()
+
+
+def _gen_dir_locked():
     d = os.path.join(scratch(), "gen")
     tgt = os.path.join(d, "smooth", "version.hpp")
     if os.path.exists(tgt):
@@ -102,7 +118,8 @@ def gen_dir():
            .replace("@CMAKE_PROJECT_VERSION_PATCH@", pa).replace("@CMAKE_PROJECT_VERSION@", "%s.%s.%s" % (ma, mi, pa)))
     if "@" in re.sub(r"//.*", "", tpl):
         raise Broken("unexpanded @VAR@ left in version.hpp.in")
-    open(tgt, "w").write(tpl)
+    open(tgt + ".tmp", "w").write(tpl)
+    os.replace(tgt + ".tmp", tgt)
     return d
 
 
@@ -131,11 +148,20 @@ def umbrella_headers():
     return [h for h in all_headers() if h not in EXCLUDED_HEADERS]
 
 
+import threading
+_umb_lock = threading.Lock()
+
+
 def umbrella_tu(extra=""):
-    p = os.path.join(scratch(), "umbrella.cpp")
-    src = "#include <cmath>\n#include <Eigen/Core>\n" + "".join("#include <%s>\n" % h for h in umbrella_headers()) + extra
-    open(p, "w").write(src)
-    return p
+    """Path of the umbrella TU (written once per run; ast dumps run concurrently and must never see a half-written file)."""
+    with _umb_lock:
+        p = os.path.join(scratch(), "umbrella%s.cpp" % (("_%d" % (abs(hash(extra)) % 10**9)) if extra else ""))
+        if not os.path.exists(p):
+            src = "#include <cmath>\n#include <Eigen/Core>\n" + "".join("#include <%s>\n" % h for h in umbrella_headers()) + extra
+            tmp = p + ".tmp"
+            open(tmp, "w").write(src)
+            os.replace(tmp, p)
+        return p
 
 
 def run(cmd, timeout=900, **kw):
@@ -200,11 +226,7 @@ def ast_dump(filt, extra_src="", extra_flags=(), tu=None):
     """JSON AST of every declaration whose qualified name contains `filt`, in the umbrella TU
     (optionally followed by `extra_src`, e.g. explicit instantiations)."""
     if tu is None:
-        tu = umbrella_tu()
-        if extra_src:
-            tu2 = os.path.join(scratch(), "umb_%d.cpp" % (abs(hash(extra_src)) % 10**9))
-            open(tu2, "w").write(open(tu).read() + extra_src)
-            tu = tu2
+        tu = umbrella_tu(extra_src)
     cmd = [clangxx()] + base_flags() + list(extra_flags) + ["-fsyntax-only", "-Xclang", "-ast-dump=json", "-Xclang",
                                                             "-ast-dump-filter=" + filt, tu]
     r = run(cmd)
